@@ -12,6 +12,8 @@ import (
 	"path/filepath"
 	"sort"
 	"strings"
+	"sync"
+	"time"
 
 	dawn "github.com/pgavlin/dawn"
 	"github.com/pgavlin/dawn/internal/verif/vlib"
@@ -19,6 +21,7 @@ import (
 	"github.com/pgavlin/dawn/label"
 )
 
+var fFree = flag.Int("free", 0, "race pass: load every graph this many times on the real Go scheduler (binary built with -race, no sync rewriting)")
 var fOnly = flag.String("only", "", "debug: only graphs whose description contains this")
 
 // files: 0=//:BUILD.dawn 1=//p1:BUILD.dawn 2=//p2:BUILD.dawn 3=//:h1.dawn 4=//:h2.dawn (5=//p3:BUILD.dawn)
@@ -135,13 +138,16 @@ func must(err error) {
 
 type events struct {
 	dawn.Events
+	mu      sync.Mutex // only contended in the free-running race pass
 	loading map[string]int
 	order   []string
 }
 
 func (e *events) ModuleLoading(l *label.Label) {
+	e.mu.Lock()
 	e.loading[l.String()]++
 	e.order = append(e.order, l.String())
+	e.mu.Unlock()
 }
 
 type outcome struct {
@@ -355,6 +361,34 @@ type replayFile struct {
 
 func main() {
 	r := vlib.Start("C06")
+	if *fFree > 0 {
+		// race pass: real goroutines, real sync; the detector reports unsynchronised accesses
+		n := 0
+		gs := curated()
+		for _, g := range gs {
+			root := filepath.Join(r.Scratch, "freeproj")
+			g.write(root)
+			for it := 0; it < *fFree; it++ {
+				os.RemoveAll(filepath.Join(root, ".dawn"))
+				ev := &events{Events: dawn.DiscardEvents, loading: map[string]int{}}
+				done := make(chan error, 1)
+				go func() { _, err := dawn.Load(root, &dawn.LoadOptions{Events: ev}); done <- err }()
+				select {
+				case err := <-done:
+					if g.cyclic() != (err != nil) {
+						fmt.Printf("VIOLATION property=C06 replay=-\n  free-running: graph %s cyclic=%v but Load returned %v\n", g, g.cyclic(), err)
+						os.Exit(1)
+					}
+				case <-time.After(60 * time.Second):
+					fmt.Printf("VIOLATION property=C06 replay=-\n  free-running: Load of %s did not return within 60s\n", g)
+					os.Exit(1)
+				}
+				n++
+			}
+		}
+		fmt.Printf("C06 race pass: %d free-running loads of %d graphs, no data race reported by the detector\n", n, len(gs))
+		os.Exit(0)
+	}
 	if r.ReplayIn != "" {
 		var rf replayFile
 		r.LoadReplay(&rf)
